@@ -87,6 +87,9 @@ def norm_index(i, n):
     return z3.If(i < 0, z3.If(i + n < 0, z3.IntVal(0), i + n), i)
 
 
+BRANCH = [None]   # optional callable(z3 Bool) -> bool: fork the current path on this condition (raises in pure evaluation mode)
+
+
 def _norm_with_oracle(i, n):
     i = z3.simplify(i)
     if z3.is_int_value(i) and i.as_long() >= 0:
@@ -100,6 +103,11 @@ def _norm_with_oracle(i, n):
                 return j
             if _entails(j < 0):
                 return z3.IntVal(0)
+            # the bound is known to be negative: only the clipping at 0 stays open.  Decide it by a path split (both outcomes are then
+            # exact windows that the structural rewriting can see through) instead of burying an ite inside every later term
+            if BRANCH[0] is not None:
+                return j if BRANCH[0](j >= 0) else z3.IntVal(0)
+            return z3.If(j < 0, z3.IntVal(0), j)
     return norm_index(i, n)
 
 
